@@ -140,6 +140,10 @@ def check(case):
             res.label("feature.skip()-after-a-failure")
         elif prog.get("hook_faults"):
             res.label("hook-fault")
+        if prog.get("cleanups") and ref.cleanup_error_elems:
+            res.label("raising-cleanup")
+            if any(k == "scenario" for k, _n in ref.cleanup_error_elems):
+                res.label("raising-cleanup:scenario-scope")
         if case.get("inherited_setup_tag"):
             res.label("inherited-@setup/@teardown")
         all_names = [s.name for f in run1.features for s in f.walk_scenarios()]
@@ -163,6 +167,10 @@ def case_st(draw):
     elif f == 2:
         # an after_scenario hook skips the rest of its feature (feature.skip() on a partly executed feature)
         prog["hook_faults"] = [[draw(st.integers(0, 10000)), "skip_feature"]]
+    elif f == 3:
+        # a cleanup registered by a hook (context.add_cleanup) raises when its scope ends: the owning element
+        # has a problem although all of its steps may have passed
+        prog["cleanups"] = [{"at": draw(st.integers(0, 10000)), "raises": True}]
     case = {"program": prog, "stale": draw(st.integers(0, 3)) == 0,
             "rerun_file": draw(st.sampled_from(["rerun.txt", "rerun.txt", "reports/rerun.txt", "features/rerun.features"]))}
     if draw(st.booleans()):
@@ -193,10 +201,11 @@ def explore(rec):
 def required_labels(tier):
     return ["no-failures", "failures", "kind:failed", "kind:error", "rerun-file:subdir", "stale-removed",
             "stale-overwritten", "row-listed", "hook-fault", "listed-name-not-unique", "inherited-@setup/@teardown", "feature.skip()-after-a-failure",
-            "feature-dir:symlink", "feature-dir:special-characters"]
+            "feature-dir:symlink", "feature-dir:special-characters", "raising-cleanup:scenario-scope"]
 
 
 KNOWN_PREDICATES = {}
 
 
 RULE = RULE + " " + ('Scenarios are identified by location (equally named scenarios are generated); the set of unsuccessful scenarios is also demanded by the reference model in run order.')
+RULE = RULE + " " + ('One history in eight registers a cleanup (context.add_cleanup in a hook) that raises when its scope ends: a scenario whose only problem is its failed cleanup is listed as well.')
